@@ -473,6 +473,39 @@ def det1(ctx, c):
 
 def det2(ctx, c):
     _emit(ctx, c, "DET-2")
+    # a field of a NamedTuple / dataclass-like class whose default is a mutable object created once with the class: every instance built without that field carries the
+    # same object; mutating it through one instance changes all of them, for the rest of the process
+    repo = ctx.repo
+    shared = {}
+    for cl in repo.classes.values():
+        for st in cl.node.body:
+            if isinstance(st, ast.AnnAssign) and isinstance(st.target, ast.Name) and st.value is not None and is_mutable_expr(st.value):
+                shared[(cl.name, st.target.id)] = st
+    MUT = ("append", "extend", "insert", "pop", "remove", "clear", "sort", "reverse", "update", "add", "setdefault", "popitem", "discard")
+    for f in repo.all_funcs():
+        built = {}
+        for n in ast.walk(f.node):
+            if isinstance(n, ast.Assign) and isinstance(n.value, ast.Call) and isinstance(n.value.func, ast.Name) and len(n.targets) == 1 and isinstance(n.targets[0], ast.Name):
+                for (cn, fld) in shared:
+                    if n.value.func.id == cn and not any(k.arg == fld for k in n.value.keywords) and not any(k.arg is None for k in n.value.keywords) \
+                            and len(n.value.args) <= [x.target.id for x in repo.classes[cn].node.body if isinstance(x, ast.AnnAssign)].index(fld):
+                        built.setdefault(n.targets[0].id, []).append((cn, fld))
+        for n in ast.walk(f.node):
+            tgt = None
+            if isinstance(n, ast.Call) and isinstance(n.func, ast.Attribute) and n.func.attr in MUT and isinstance(n.func.value, ast.Attribute) and isinstance(n.func.value.value, ast.Name):
+                tgt = n.func.value
+            elif isinstance(n, (ast.Assign, ast.AugAssign)):
+                for t_ in (n.targets if isinstance(n, ast.Assign) else [n.target]):
+                    if isinstance(t_, ast.Subscript) and isinstance(t_.value, ast.Attribute) and isinstance(t_.value.value, ast.Name):
+                        tgt = t_.value
+                    if isinstance(n, ast.AugAssign) and isinstance(t_, ast.Attribute) and isinstance(t_.value, ast.Name):
+                        tgt = t_
+            if tgt is not None:
+                for cn, fld in built.get(tgt.value.id, []):
+                    if tgt.attr == fld:
+                        c.finding("%s:%s.%s" % (f.q, cn, fld), "mutates the default %s of a %s built without it (%s)" % (fld, cn, U(n)[:40]),
+                                  "%s builds a %s without `%s=` and then does `%s`: the default `%s` is one object created with the class, shared by every %s built that way, so what one "
+                                  "assembly puts there is still there for the next one in the same process" % (f.q, cn, fld, U(n)[:60], U(shared[(cn, fld)].value), cn), repo.loc(f, n))
 
 
 def det3(ctx, c):
@@ -513,15 +546,24 @@ def det4(ctx, c):
         if f is None:
             continue
         hit = None
-        for kind, tgt, st in mutations(f.node):
-            recv = tgt if not kind.startswith("attribute") else tgt.value
-            r = root_of(recv)
-            if isinstance(r, ast.Name) and r.id == "self":
-                hit = hit or st
-        for x in ast.walk(f.node):
-            if isinstance(x, ast.Call) and isinstance(x.func, ast.Attribute) and x.func.attr in ("sort", "reverse", "pop", "remove", "clear", "insert", "append", "extend") \
-                    and U(x.func.value).startswith("self."):
-                hit = hit or x
+        from ..inline import flatten as _fl4
+        try:
+            fnode = _fl4(repo, f, depth=2)
+        except Exception:
+            fnode = f.node
+        # the helpers it calls on itself count too (a mutation moved into `self.append_bytes(...)` is the same mutation)
+        helper_nodes = [fnode] + [P.methods[x.func.attr].node for x in ast.walk(fnode) if isinstance(x, ast.Call) and isinstance(x.func, ast.Attribute)
+                                  and isinstance(x.func.value, ast.Name) and x.func.value.id == "self" and x.func.attr in P.methods and x.func.attr != meth]
+        for hn in helper_nodes:
+            for kind, tgt, st in mutations(hn):
+                recv = tgt if not kind.startswith("attribute") else tgt.value
+                r = root_of(recv)
+                if isinstance(r, ast.Name) and r.id == "self":
+                    hit = hit or st
+            for x in ast.walk(hn):
+                if isinstance(x, ast.Call) and isinstance(x.func, ast.Attribute) and x.func.attr in ("sort", "reverse", "pop", "remove", "clear", "insert", "append", "extend") \
+                        and U(x.func.value).startswith("self."):
+                    hit = hit or x
         if hit is not None:
             c.finding("Program.%s" % meth, "changes the program while reporting on it (%s)" % U(hit)[:40],
                       "Program.%s modifies the program's own state (`%s`): what get_binary_array / get_statements return then depends on which of them was called first, so the same "
